@@ -25,6 +25,7 @@ import (
 func init() {
 	register("C13", checkC13)
 	registerChild("report", childReport)
+	registerChild("c13default", childC13Default)
 }
 
 type RepDev struct {
@@ -206,6 +207,32 @@ var c13DirFaults = []string{"missing", "isfile", "enotdir", "noread", "nosearch"
 
 func isPermFault(k string) bool { return k == "unreadable" || k == "noread" || k == "nosearch" }
 
+// childC13Default: the package-level default cache in a process of its own; the
+// first thing asked of it is args[0] ("refresh", "errors-first", "configure-first").
+func childC13Default(args []string) int {
+	first, dirs := args[0], args[1:]
+	cdi.DefaultSpecDirs = dirs
+	out := map[string]any{}
+	switch first {
+	case "errors-first":
+		out["errors_before"] = len(cdi.GetDefaultCache().GetErrors())
+	case "configure-first":
+		cdi.Configure(cdi.WithSpecDirs(dirs...))
+	}
+	e1 := cdi.Refresh()
+	out["first_refresh_failed"] = e1 != nil
+	var keys []string
+	for k := range cdi.GetDefaultCache().GetErrors() {
+		keys = append(keys, k)
+	}
+	sort.Strings(keys)
+	out["err_keys"] = keys
+	out["second_refresh_failed"] = cdi.Refresh() != nil
+	out["devices"] = cdi.GetDefaultCache().ListDevices()
+	json.NewEncoder(os.Stdout).Encode(out)
+	return 0
+}
+
 func checkC13(c *Ctx) {
 	c.Level = "fault_enumeration"
 	c.Rule = "for seeded good populations (2-4 directories, colliding definitions): every fault kind (file: syntax error, semantic error, empty, unreleased version, dangling symlink, vanishes between listing and reading, replaced by invalid content between listing and reading [scan.beforeRead hook], unreadable; directory: missing, is a regular file, non-directory ancestor, no read permission, no search permission [child process as uid 65534]) plus a symbolic link to a directory, with and without a Spec name, next to the Spec files; at every configured-directory position and at up to 4 Spec files, alone or with a second random fault, manual mode (file faults also in auto-refresh mode), followed by a repair (the file rewritten with good content, renamed to a non-Spec name, moved out of the directory or removed) and another refresh; distinct_nontrivial = distinct (fault kind, position class first/middle/last or file's directory position, second fault kind, mode)"
@@ -286,6 +313,40 @@ func checkC13(c *Ctx) {
 			c.AddEvaluations(1)
 		}
 	})
+	// the package-level default cache, whose first use in a process is the explicit
+	// refresh (or a look at the errors, or a Configure): the same contract
+	exeD, _ := os.Executable()
+	c.RunCases("default-cache", c.pick(12, 120), 4, func(cs *Case) {
+		r := cs.R
+		root := filepath.Join(c.Scratch, sanitize(cs.Name))
+		good, other := filepath.Join(root, "etc"), filepath.Join(root, "run")
+		must(os.MkdirAll(good, 0o755))
+		must(os.MkdirAll(other, 0o755))
+		defer os.RemoveAll(root)
+		must(os.WriteFile(filepath.Join(good, "ok.json"), []byte(`{"cdiVersion":"0.6.0","kind":"vendor.com/gpu","devices":[{"name":"d","containerEdits":{"env":["A=b"]}}]}`), 0o644))
+		faulty := chance(r, 70)
+		if faulty {
+			must(os.WriteFile(filepath.Join(pickStr(r, good, other), "bad.yaml"), []byte(pickStr(r, "{", "", "cdiVersion: 0.6.0\nkind: vendor.com/gpu\ndevices: []\n")), 0o644))
+		}
+		first := pickStr(r, "refresh", "refresh", "errors-first", "configure-first")
+		outb, err := exec.Command(exeD, append([]string{"child-c13default", first}, good, other)...).Output()
+		var rep struct {
+			First  bool     `json:"first_refresh_failed"`
+			Second bool     `json:"second_refresh_failed"`
+			Keys   []string `json:"err_keys"`
+			Devs   []string `json:"devices"`
+		}
+		if err != nil || json.Unmarshal(outb, &rep) != nil {
+			cs.Violation("child-died", nil, fmt.Sprintf("the process using the default cache died: %v: %s", err, clip(string(outb), 500)), nil)
+			return
+		}
+		c.Count("default_cache_processes", 1)
+		c.Distinct(fmt.Sprintf("default|%s|%v", first, faulty))
+		if rep.First != faulty || rep.Second != faulty || (len(rep.Keys) > 0) != faulty || len(rep.Devs) != 1 {
+			cs.Violation("refresh-result", map[string]string{"first_use": first}, fmt.Sprintf("default cache, first use = %s, a Spec file in error: %v: first Refresh() failed=%v, second failed=%v, error report %v, devices %v", first, faulty, rep.First, rep.Second, rep.Keys, rep.Devs), nil)
+		}
+	})
+	c.Floor("default_cache_processes", 8)
 	// overlapping explicit refreshes around a repair: a refresh that began before the
 	// repair must not overwrite the result of one that began after it
 	c.RunCases("overlap", c.pick(12, 120), 0, func(cs *Case) { c13Overlap(cs) })
@@ -420,6 +481,20 @@ func c13Scenario(cs *Case, base *Pop, f c13Fault, second *c13Fault, auto bool, n
 				if x.Phys == old.Phys && x.Name == old.Name {
 					disk.Files[i] = old
 				}
+			}
+		}
+	}
+	// a Spec object for the path of the file about to fail, obtained while the file
+	// was still good (a caller may well hold one): the per-Spec view of the error
+	// report is asked with it later
+	var held *cdi.Spec
+	heldPath := ""
+	switch f.kind {
+	case "syntax", "semantic", "empty", "version":
+		if old := base.Files[f.target]; second == nil && old.specNamed() && !strings.Contains(old.Name, "/") {
+			heldPath = p.path(old)
+			if os.MkdirAll(filepath.Dir(heldPath), 0o755) == nil && os.WriteFile(heldPath, old.Content, 0o644) == nil {
+				held, _ = cdi.ReadSpec(heldPath, 0)
 			}
 		}
 	}
@@ -649,6 +724,13 @@ func c13Scenario(cs *Case, base *Pop, f c13Fault, second *c13Fault, auto bool, n
 		if !report("with fault", rep, res, mustErr, refreshMustFail, refreshMustSucceed) {
 			return
 		}
+		if held != nil {
+			c.Count("per_spec_error_views_checked", 1)
+			if es := cache.GetSpecErrors(held); (len(es) > 0) != (len(cache.GetErrors()[heldPath]) > 0) {
+				(&Case{Ctx: c, Name: name}).Violation("missing-error-entry", tags, fmt.Sprintf("GetSpecErrors of a Spec object for %s (held since the file was valid) = %v, but GetErrors() has %v for that path", heldPath, es, cache.GetErrors()[heldPath]), wit(rep, "fault"))
+				return
+			}
+		}
 		q := repair()
 		if ac != nil && !ac.Quiesce() {
 			c.Inconclusive("quiesce-timeout")
@@ -680,6 +762,7 @@ func c13Scenario(cs *Case, base *Pop, f c13Fault, second *c13Fault, auto bool, n
 		}
 	}
 	c.Count("repaired:"+f.kind, 1)
+	_ = held
 	c.Sample(4, map[string]any{"fault": f.kind, "position": pos(f), "second_fault": sk, "mode": mode, "configured_dirs": len(p.Conf), "files_required_in_error_report": len(mustErr)})
 }
 
